@@ -99,6 +99,13 @@ def t_eqgate(s: float, e: float, k: float) -> float:
     return k * (s - e) if s != 1.0 else k
 
 
+def t_window(s: float, lo: float, hi: float) -> float:
+    """a comparison chain of four operands with mixed strictness"""
+    if 0.125 <= lo < s <= hi + lo:
+        return hi * s
+    return (lo if s > hi >= lo < 5.0 else 0.25 * s)
+
+
 def t_local(s: float, k: float) -> float:
     a = s * s
     b = a + k
@@ -178,5 +185,5 @@ def u_exp(s: float, k: float) -> float:
     return k * math.exp(-s)
 
 
-RATES = {1: [t_const], 2: [t_ma1, t_cond, t_chain, t_elif, t_nested, t_local, t_time, t_cap], 3: [t_ma2, t_mm, t_inh, t_hill, t_nestif, t_guarded, t_share, t_eqgate], 4: [t_rev]}
+RATES = {1: [t_const], 2: [t_ma1, t_cond, t_chain, t_elif, t_nested, t_local, t_time, t_cap], 3: [t_ma2, t_mm, t_inh, t_hill, t_nestif, t_guarded, t_share, t_eqgate, t_window], 4: [t_rev]}
 UNTRANSLATABLE = [u_loop, u_andor, u_aug, u_exp]
